@@ -55,13 +55,16 @@ def run():
     # real topology of this machine (1 socket x 16 cores x 1 PU): taskset masks, OS-level affinity
     real_cases = []
     rng = __import__("random").Random(chk.seed)
-    for i in range(200 if chk.thorough() else 40):
+    for i in range(300 if chk.thorough() else 80):
         k = rng.randint(1, 8)
         m = sorted(rng.sample(range(16), k))
         th = rng.choice(["n", "n", "all", "cores"])
         n = rng.randint(1, k + 1) if th == "n" else 0
+        # a second thread pool on the real machine: only the OS-reported affinity shows where its workers
+        # really are
+        second = 1 if (th == "n" and 2 <= n <= k and rng.random() < 0.5) else 0
         real_cases.append(dict(s=1, c=16, p=1, mask=m, threads=th, n=n,
-                               bind=rng.choice(["compact", "scatter", "balanced", "numa-balanced"]), second=0, real=1))
+                               bind=rng.choice(["compact", "scatter", "balanced", "numa-balanced"]), second=second, real=1))
 
     def one(c):
         res, err = run_case(binary, c, real=bool(c.get("real")))
